@@ -1529,6 +1529,11 @@ func (l *lexer) linebreak() bool {
 			fallthrough
 		default:
 			if !hash {
+				if r == '\t' || r == ' ' {
+					// <blank>
+					l.mark(0)
+					break
+				}
 				l.unread()
 				return true
 			}
